@@ -138,6 +138,8 @@ SIMPLE = [
     S("none-global-read", "{n1} = E({e1}, GNONE)", cur="n1", special=True),
     # a string literal whose continuation line is indented at least as much as the (indented) def statement
     S("multiline-str", ['{n1} = E({e1}, """first', '            second""")'], cur=None, flags=["closure"], special=True),
+    # Python never evaluates the annotation of a local variable (e.g. a name imported under TYPE_CHECKING only)
+    S("ann-undefined", "{n1}: OnlyForTypeCheckers = E({e1}, {p})", cur="n1", special=True),
     S("mangled-read", "{n1} = E({e1}, K.__hid + {p})", cur="n1", flags=["inclass"], special=True),
     S("weird-eq", "{n1} = NOEQ(E({e1}, {p}))", special=True),
     S("return-yield", "return (yield E({e1}, {p}))", gen=True, special=True),
@@ -265,6 +267,8 @@ SIGNATURES = {
     "doc": ("x", True),
     # defined in a factory; a default value refers to a local of the factory
     "closure-default": ("x, y=kk", False),
+    # an annotation refers to a local of the factory
+    "closure-annot": ("x: kt, y: kt = 2", False),
 }
 
 
@@ -285,8 +289,8 @@ def render(lines, flags, tail=True, sig=None):
     # (and instrumented), PEEK shows what f's own `nonlocal` writes did to the shared variable
     share = ("    def peek():\n        return c\n    def poke(v):\n        nonlocal c\n        c = v\n"
              "    f.PEEK, f.POKE = peek, poke\n")
-    if sig == "closure-default":
-        return "def make(c):\n    kk = 3\n" + "\n".join("    " + ln for ln in fn) + "\n" + share + "    return f\nf = make(10)\n"
+    if sig in ("closure-default", "closure-annot"):
+        return "def make(c):\n    kk = 3\n    kt = int\n" + "\n".join("    " + ln for ln in fn) + "\n" + share + "    return f\nf = make(10)\n"
     if "inclass" in flags:
         # f is defined in a class body: identifiers of the form __name inside it are mangled by the compiler
         return "class K:\n    __hid = 40\n" + "\n".join("    " + ln for ln in fn) + "\nf = K.f\n"
@@ -325,10 +329,10 @@ def programs(size, tier, only=None, maxdepth=2, must=None, tails=(True,), sigs=(
             for sig in sigs:
                 if sig and (ctx.flags & {"o", "d"}):
                     continue
-                if sig == "closure-default" and "closure" in ctx.flags:
+                if sig in ("closure-default", "closure-annot") and "closure" in ctx.flags:
                     continue
                 if "inclass" in ctx.flags and (sig or "closure" in ctx.flags):
                     continue
-                fl = ctx.flags | ({"sig:" + sig} if sig else set()) | ({"closure"} if sig == "closure-default" else set())
+                fl = ctx.flags | ({"sig:" + sig} if sig else set()) | ({"closure"} if sig in ("closure-default", "closure-annot") else set())
                 fm = forms + (() if tail else ("fall-off-end",)) + (("sig-" + sig,) if sig else ())
                 yield Prog(render(lines, ctx.flags, tail, sig), fm, frozenset(fl), used)
